@@ -152,6 +152,11 @@ namespace nmtools::array
             //     "mismatched shape for evaluator call"
             // );
 
+            #ifdef NMTOOLS_VERIF
+            if (!::nmtools::utils::isequal(out_shape,inp_shape)) {
+                NMTOOLS_VERIF_EVENT(verif::flag(verif::EVAL_SKIP,0,0));
+            }
+            #endif // NMTOOLS_VERIF
             if (!::nmtools::utils::isequal(out_shape,inp_shape))
                 return;
 
